@@ -12,6 +12,7 @@
   session and request options); `seqCopyOld` is the `__copy__` before that commit.
 -/
 import PydapModel.Slice
+import PydapModel.Subset
 namespace Pydap.Proxy
 
 /-- the session a proxy carries; `none` makes `create_request` build a fresh anonymous session -/
@@ -57,12 +58,25 @@ structure ArrProxy where
   dap4 : Bool
 deriving DecidableEq, Repr, Inhabited
 
+/-- what the `data` attribute of a `BaseType` holds: the proxy installed by `open_url` (by
+    *reference*: `BaseType.__copy__` hands the same proxy object to the copy), or an array received
+    from the server, described per source axis by (axis removed by an integer index of a *local*
+    numpy indexing?, source positions held) — with distinct source values this determines the
+    array. -/
+inductive Data where
+  | proxy (r : Nat)
+  | vals (axes : List (Bool × List Nat))
+deriving DecidableEq, Repr, Inhabited
+
 inductive Obj where
   | seq (p : SeqProxy)
   | arr (p : ArrProxy)
   | fns (baseurl : Name) (session : Sess)                     -- `Functions`
   | fn (baseurl name : Name) (session : Sess)                 -- `ServerFunction`
   | res (baseurl id : Name) (session : Sess) (loaded : Bool)  -- `ServerFunctionResult`
+  | var (id : Name) (data : Data)                             -- `BaseType` (of the dataset, of a grid, or a result)
+  | grid (kids : List Nat) (outputGrid : Bool)                -- `GridType`: references to its children (array first,
+                                                              -- then the maps), `_output_grid`
 deriving DecidableEq, Repr, Inhabited
 
 /-- what a GET asks for -/
@@ -78,6 +92,9 @@ structure Heap where
   tmpls : List Tmpl
   objs : List Obj
   log : List (Sess × Req)
+  /-- the served dataset (the other side of the wire, never written by the client): shapes of the
+      source arrays by id.  The answer to a GET is a function of the request and of this. -/
+  src : List (Name × List Nat) := []
 deriving Repr, Inhabited
 
 inductive DKey where
@@ -98,6 +115,8 @@ inductive Ev where
   | rget (r : Nat) (decodes : Bool)     -- ServerFunctionResult.__getitem__ → open_dods_url: GET .dods; when the answer
                                         -- decodes (webob transport) also GET .das and cache the dataset; with a requests
                                         -- session `r.body` raises AttributeError right after the first GET
+  | vget (r : Nat) (idx : List Idx)     -- BaseType.__getitem__ with an index: copy + `self.data[index]`
+  | ggrid (r : Nat) (key : List Idx)    -- GridType.__getitem__ with a non-string key (output_grid on or off)
 deriving DecidableEq, Repr, Inhabited
 
 def joinDot : List Name → Name
@@ -178,6 +197,120 @@ def arrReq (p : ArrProxy) (idx : List Idx) : Req :=
 def pushObj (h : Heap) (o : Obj) : Heap := { h with objs := h.objs ++ [o] }
 def pushLog (h : Heap) (s : Sess) (r : Req) : Heap := { h with log := h.log ++ [(s, r)] }
 
+/-! ### variables and grids (model.py `BaseType.__getitem__`, `GridType.__getitem__`) -/
+
+/-- the server's answer to the GET of one array, as source positions per axis
+    (handlers/lib.py `apply_projection` → `data[slices]`, model `npSlices`; `none` = error document) -/
+def answer (src : List (Name × List Nat)) (q : Req) : Option (List (List Nat)) :=
+  match q.ids with
+  | [id] => match src.find? (fun e => e.1 = id) with
+    | some e => match npSlices e.2 q.slab with
+      | .ok pos => some pos
+      | .error _ => none
+    | none => none
+  | _ => none
+
+/-- numpy basic indexing of one axis holding source positions `p` -/
+def npLocal1 (p : List Nat) : Idx → Option (Bool × List Nat)
+  | .int i => (selInt p.length i).bind fun j => (p[j]?).map fun v => (true, [v])
+  | .sl s => some (false, (sel p.length s).filterMap (p[·]?))
+  | .ell => none
+
+/-- numpy basic indexing of a received array by an Ellipsis-free key (short keys leave the
+    trailing axes whole, too many entries raise IndexError) -/
+def npLocalAxes : List (Bool × List Nat) → List Idx → Option (List (Bool × List Nat))
+  | [], [] => some []
+  | [], _ :: _ => none
+  | (true, p) :: rest, ix => (npLocalAxes rest ix).map ((true, p) :: ·)
+  | (false, p) :: rest, [] => (npLocalAxes rest []).map ((false, p) :: ·)
+  | (false, p) :: rest, e :: ix => (npLocal1 p e).bind fun a => (npLocalAxes rest ix).map (a :: ·)
+
+def ndim (axes : List (Bool × List Nat)) : Nat := (axes.filter fun a => !a.1).length
+
+def npLocal (axes : List (Bool × List Nat)) (key : List Idx) : Option (List (Bool × List Nat)) :=
+  npLocalAxes axes (expandKey key (ndim axes + 1 - key.length))
+
+/-- `data[index]` for what a `BaseType` holds.  A proxy issues one GET (logged with the proxy's
+    session, `BaseProxyDap2.__getitem__` keeps no state) and returns the decoded answer; a received
+    array is indexed locally by numpy.  The heap returned differs from `h` by the log only;
+    `none` = the read raised. -/
+def readData (h : Heap) (d : Data) (idx : List Idx) : Heap × Option (List (Bool × List Nat)) :=
+  match d with
+  | .proxy r =>
+    match h.objs[r]? with
+    | some (.arr p) =>
+      (pushLog h p.session (arrReq p idx), (answer h.src (arrReq p idx)).map fun pos => pos.map fun x => (false, x))
+    | _ => (h, none)
+  | .vals axes => (h, npLocal axes idx)
+
+/-- `len(self.shape)` of a variable -/
+def dataRank (h : Heap) : Data → Nat
+  | .proxy r => match h.objs[r]? with
+    | some (.arr p) => p.cshape.length
+    | _ => 0
+  | .vals axes => ndim axes
+
+/-- `BaseType.__getitem__(index)`: `out = copy.copy(self); out.data = self._get_data_index(index)`.
+    The copy is reachable by nobody until it is returned, so it is allocated with its final data. -/
+def varGetitem (h : Heap) (r : Nat) (idx : List Idx) : Heap :=
+  match h.objs[r]? with
+  | some (.var id d) =>
+    match (readData h d idx).2 with
+    | some ax => pushObj (readData h d idx).1 (.var id (.vals ax))
+    | none => (readData h d idx).1
+  | _ => h
+
+/-- the loop of `GridType.__getitem__`:
+    `for var, slice_ in zip(out.children(), [key] + axes): var.data = self[var.name].data[slice_]`.
+    `kids` are the children of `self` (the data is read from *them*), the result lists the children
+    of `out` (clones of the same id, `copy.copy(child)` shares the parent's data until it is
+    assigned); children beyond the index list keep the shared data (lazy maps of a short key). -/
+def gridLoop (h : Heap) : List Nat → List (List Idx) → Heap × Option (List Obj)
+  | [], _ => (h, some [])
+  | k :: ks, [] =>
+    match h.objs[k]? with
+    | some (.var id d) => ((gridLoop h ks []).1, (gridLoop h ks []).2.map fun l => Obj.var id d :: l)
+    | _ => (h, none)
+  | k :: ks, ix :: ixs =>
+    match h.objs[k]? with
+    | some (.var id d) =>
+      match (readData h d ix).2 with
+      | some ax =>
+        ((gridLoop (readData h d ix).1 ks ixs).1,
+         (gridLoop (readData h d ix).1 ks ixs).2.map fun l => Obj.var id (.vals ax) :: l)
+      | none => ((readData h d ix).1, none)
+    | _ => (h, none)
+
+def pushObjs (h : Heap) (l : List Obj) : Heap := { h with objs := h.objs ++ l }
+
+/-- the index lists of the loop: the whole key for the array, entry `i` of the Ellipsis-expanded
+    key for map `i` (after fix c853ce5) -/
+def gridIndexLists (rank : Nat) (key : List Idx) : List (List Idx) :=
+  key :: (expandKey key (rank + 1 - key.length)).map fun e => [e]
+
+/-- after the loop: the new `GridType` (built by `__shallowcopy__`, so `_output_grid` is True again)
+    with its children, allocated when the loop did not raise -/
+def gridFinish (r : Heap × Option (List Obj)) : Heap :=
+  match r.2 with
+  | some newKids =>
+    pushObj (pushObjs r.1 newKids)
+      (.grid ((List.range newKids.length).map fun i => r.1.objs.length + i) true)
+  | none => r.1
+
+/-- `GridType.__getitem__(key)` for a non-string key -/
+def gridGetitemHeap (h : Heap) (r : Nat) (key : List Idx) : Heap :=
+  match h.objs[r]? with
+  | some (.grid kids og) =>
+    match kids.head? with
+    | none => h
+    | some a =>
+      if og then
+        match h.objs[a]? with
+        | some (.var _ d) => gridFinish (gridLoop h kids (gridIndexLists (dataRank h d) key))
+        | _ => h
+      else varGetitem h a key        -- `return self.array[key]`
+  | _ => h
+
 /-- one client-side event; events that make Python raise leave the state unchanged -/
 def stepWith (cp : Heap → SeqProxy → Option (Heap × SeqProxy)) (h : Heap) : Ev → Heap
   | .copy r =>
@@ -219,6 +352,8 @@ def stepWith (cp : Heap → SeqProxy → Option (Heap × SeqProxy)) (h : Heap) :
         { h2 with objs := h2.objs.set r (.res b id s true) }
       else h1
     | _ => h
+  | .vget r idx => varGetitem h r idx
+  | .ggrid r key => gridGetitemHeap h r key
 
 def step : Heap → Ev → Heap := stepWith seqCopy
 def stepOld : Heap → Ev → Heap := stepWith seqCopyOld
@@ -233,12 +368,19 @@ structure Obs where
   columns : List Name      -- the columns the answer would be decoded with
   session : Sess
   ident : List Name        -- id / url parts of arrays and function objects
+  aslice : List Idx := []    -- the slice an array proxy stores
+  data : Option Data := none -- what a variable holds
+  kids : List Nat := []      -- the children of a grid, its `_output_grid`
+  flag : Bool := false
+  kind : Nat := 0            -- 0 sequence/function objects, 1 array proxy, 2 variable, 3 grid
 deriving DecidableEq, Repr, Inhabited
 
 def obsObj (h : Heap) : Obj → Option Obs
   | .seq p => (h.tmpls[p.template]?).map fun t =>
       { req := some (seqReq t p), columns := seqColumns t, session := p.session, ident := [] }
-  | .arr p => some { req := none, columns := [], session := p.session, ident := [p.vid] }
+  | .arr p => some { req := none, columns := [], session := p.session, ident := [p.vid], aslice := p.slice, kind := 1 }
+  | .var id d => some { req := none, columns := [], session := none, ident := [id], data := some d, kind := 2 }
+  | .grid ks og => some { req := none, columns := [], session := none, ident := [], kids := ks, flag := og, kind := 3 }
   | .fns b s => some { req := none, columns := [], session := s, ident := [b] }
   | .fn b n s => some { req := none, columns := [], session := s, ident := [b, n] }
   | .res b id s _ => some { req := none, columns := [], session := s, ident := [b, id] }
@@ -256,6 +398,12 @@ def openHeap (baseurl : Name) (baseSel : List Name) (σ : Sess) (seqName : Name)
       ++ arrays.map (fun (id, cs, d4) =>
           Obj.arr (ArrProxy.mk baseurl baseSel id cs (List.replicate cs.length (Idx.sl PSlice.all)) σ 1 d4))
       ++ [.fns baseurl σ],
-    log := [] }
+    log := [],
+    src := arrays.map fun (id, cs, _) => (id, cs) }
+
+/-- the `BaseType`/`GridType` objects of the opened dataset on top of the proxies: `vars` =
+    (id, reference of its proxy), `grids` = (references of the children, `output_grid`) -/
+def openVars (h : Heap) (vars : List (Name × Nat)) (grids : List (List Nat × Bool)) : Heap :=
+  { h with objs := h.objs ++ vars.map (fun v => Obj.var v.1 (.proxy v.2)) ++ grids.map (fun g => Obj.grid g.1 g.2) }
 
 end Pydap.Proxy
